@@ -380,3 +380,45 @@ pub fn inv_replay(token: &[u8]) -> Option<String> {
     inv_pair(a, b)
 }
 pub fn _unused() { let _ = hex(b""); }
+
+// ------------------------------------------------------------------------------------------------ matches (C11)
+fn mk_ids() -> Vec<String> {
+    let mut out = vec![];
+    for l in ["und", "en", "fr"] { for s in ["", "-Latn", "-Cyrl"] { for r in ["", "-US", "-419"] { for v in ["", "-macos", "-macos-valencia", "-1996"] {
+        out.push(format!("{}{}{}{}", l, s, r, v));
+    }}}}
+    out
+}
+fn field_match<T: PartialEq>(a: &Option<T>, b: &Option<T>, ra: bool, rb: bool) -> bool { (ra && a.is_none()) || (rb && b.is_none()) || a == b }
+pub fn matches_check(a: &str, b: &str, ea: &str, eb: &str, ra: bool, rb: bool) -> Option<String> {
+    let (x, y): (LanguageIdentifier, LanguageIdentifier) = (a.parse().unwrap(), b.parse().unwrap());
+    let lang = |l: &LanguageIdentifier| if l.language.is_empty() { None } else { Some(l.language) };
+    let vars = |l: &LanguageIdentifier| { let v: Vec<Variant> = l.variants().cloned().collect(); if v.is_empty() { None } else { Some(v) } };
+    let want = field_match(&lang(&x), &lang(&y), ra, rb) && field_match(&x.script, &y.script, ra, rb)
+        && field_match(&x.region, &y.region, ra, rb) && field_match(&vars(&x), &vars(&y), ra, rb);
+    if x.matches(&y, ra, rb) != want { return Some(format!("\"{}\".matches(\"{}\", {}, {}) = {}, the wildcard formula gives {}", a, b, ra, rb, !want, want)); }
+    let (lx, ly): (Locale, Locale) = (format!("{}{}", a, ea).parse().unwrap(), format!("{}{}", b, eb).parse().unwrap());
+    let lwant = if !lx.extensions.private.is_empty() || !ly.extensions.private.is_empty() { false } else { want };
+    if lx.matches(&ly, ra, rb) != lwant { return Some(format!("Locale \"{}\".matches(\"{}\", {}, {}) = {}, expected {}", lx, ly, ra, rb, !lwant, lwant)); }
+    if x.matches(&ly.id, ra, rb) != want { return Some(format!("LanguageIdentifier \"{}\" matched against the id of Locale \"{}\" disagrees with the formula", a, ly)); }
+    None
+}
+/// bound: the product domain of C11's quantifier: (3 languages x 3 scripts x 3 regions x 4 variant lists) squared x 4 flag pairs x
+/// 3 extension shapes per side (none, -u-ca-buddhist, -x-priv)
+pub fn matches_search() -> Option<(Vec<u8>, String)> {
+    let ids = mk_ids();
+    let exts = ["", "-u-ca-buddhist", "-x-priv"];
+    for a in &ids { for b in &ids { for ea in exts { for eb in exts { for f in 0..4 {
+        let (ra, rb) = (f & 1 == 1, f & 2 == 2);
+        if ea != "" && eb != "" && ea != eb && f != 3 { continue; }
+        if let Some(d) = matches_check(a, b, ea, eb, ra, rb) { return Some((format!("{}|{}|{}|{}|{}", a, b, ea, eb, f).into_bytes(), d)); }
+    }}}}}
+    None
+}
+pub fn matches_replay(token: &[u8]) -> Option<String> {
+    let t = String::from_utf8_lossy(token).to_string();
+    let p: Vec<&str> = t.split('|').collect();
+    if p.len() != 5 { return None; }
+    let f: u8 = p[4].parse().ok()?;
+    matches_check(p[0], p[1], p[2], p[3], f & 1 == 1, f & 2 == 2)
+}
